@@ -10,7 +10,10 @@ use std::time::Instant;
 
 use serde_json::{json, Value as J};
 
-pub const VERIF_DIR: &str = "/verif";
+/// directory of the verification checkout this binary was started from (set by ./check; /verif by default)
+pub fn verif_dir() -> String {
+    std::env::var("VERIF_DIR").unwrap_or_else(|_| "/verif".to_string())
+}
 
 #[derive(Clone, Copy, PartialEq, Eq, Debug)]
 pub enum Tier {
@@ -335,8 +338,8 @@ pub fn par_for_watch<F: Fn(u64) + Sync>(ctx: &Ctx, n: u64, chunk: u64, describe:
                     if idx != 0 && now.saturating_sub(st) > HANG_SECS * 1000 && sl.0.load(Ordering::Acquire) == idx {
                         let case = describe(idx - 1);
                         let sig = "hang:case did not return".to_string();
-                        let name = format!("{}/replays/{}-{:016x}.json", VERIF_DIR, ctx.prop, h64(&(sig.clone(), idx)));
-                        std::fs::create_dir_all(format!("{}/replays", VERIF_DIR)).ok();
+                        let name = format!("{}/replays/{}-{:016x}.json", verif_dir(), ctx.prop, h64(&(sig.clone(), idx)));
+                        std::fs::create_dir_all(format!("{}/replays", verif_dir())).ok();
                         let body = json!({"property": ctx.prop, "signature": sig, "what": format!("a single case did not return within {} s (execution must terminate)", HANG_SECS), "case": case});
                         std::fs::write(&name, serde_json::to_string_pretty(&body).unwrap()).ok();
                         println!("VIOLATION property={} replay={}", ctx.prop, name);
@@ -465,7 +468,7 @@ pub struct KnownFinding {
 }
 
 pub fn load_known_findings() -> Result<Vec<KnownFinding>, String> {
-    let path = format!("{}/known_findings.json", VERIF_DIR);
+    let path = format!("{}/known_findings.json", verif_dir());
     let text = match std::fs::read_to_string(&path) {
         Ok(t) => t,
         Err(_) => return Ok(vec![]),
@@ -507,7 +510,7 @@ pub fn finish(ctx: &Ctx, col: &Collector, fin: Finish) -> i32 {
     let mut violations = 0u64;
     let mut known_seen: Vec<J> = Vec::new();
     let mut violation_list: Vec<J> = Vec::new();
-    std::fs::create_dir_all(format!("{}/replays", VERIF_DIR)).ok();
+    std::fs::create_dir_all(format!("{}/replays", verif_dir())).ok();
     for (sig, fs) in failures.iter() {
         let f = &fs[0];
         let kf = known.iter().find(|k| k.property == ctx.prop && k.status == "known" && &k.signature == sig);
@@ -516,7 +519,7 @@ pub fn finish(ctx: &Ctx, col: &Collector, fin: Finish) -> i32 {
             known_seen.push(json!({"id": kf.id, "signature": sig, "witness": f.case}));
         } else {
             violations += 1;
-            let name = format!("{}/replays/{}-{:016x}.json", VERIF_DIR, ctx.prop, h64(sig));
+            let name = format!("{}/replays/{}-{:016x}.json", verif_dir(), ctx.prop, h64(sig));
             let body = json!({
                 "property": ctx.prop,
                 "signature": sig,
@@ -570,8 +573,8 @@ pub fn finish(ctx: &Ctx, col: &Collector, fin: Finish) -> i32 {
         "wall_s": (ctx.elapsed() * 1000.0).round() / 1000.0,
         "violations": violations,
     });
-    std::fs::create_dir_all(format!("{}/evidence", VERIF_DIR)).ok();
-    let epath = format!("{}/evidence/{}.json", VERIF_DIR, ctx.prop);
+    std::fs::create_dir_all(format!("{}/evidence", verif_dir())).ok();
+    let epath = format!("{}/evidence/{}.json", verif_dir(), ctx.prop);
     if let Err(e) = std::fs::write(&epath, serde_json::to_string_pretty(&evidence).unwrap()) {
         println!("MACHINERY-ERROR: cannot write evidence {}: {}", epath, e);
         return 2;
